@@ -25,6 +25,7 @@ CONSTANTS
   NAdders = %(n)d
   DueSet = {%(dues)s}
   RetrySets = {%(retry)s}
+  PanicSets = {%(panic)s}
   RetryDelay = %(rd)d
   CloseSet = {%(close)s}
   ParSet = {%(par)s}
@@ -40,10 +41,11 @@ LIVE = "VIEW View\nINVARIANTS NoViolation\nPROPERTIES Terminates CloseTerminates
 
 
 def cfg(n=2, dues=(0,), retry=(("p1",),), close=("TRUE",), par=(1,), maxtime=1, devs=(), gen=False,
-        db=1000, tail=SAFETY, spec="Spec", rd=1):
+        db=1000, tail=SAFETY, spec="Spec", rd=1, panic=((),)):
     rs = ", ".join("{" + ", ".join('"%s"' % p for p in r) + "}" for r in retry)
+    ps = ", ".join("{" + ", ".join('"%s"' % p for p in r) + "}" for r in panic)
     return CFG % dict(spec=spec, n=n, dues=", ".join(map(str, dues)), retry=rs, close=", ".join(close),
-                      par=", ".join(map(str, par)), maxtime=maxtime, rd=rd,
+                      par=", ".join(map(str, par)), maxtime=maxtime, rd=rd, panic=ps,
                       devs=", ".join('"%s"' % d for d in devs), gen="TRUE" if gen else "FALSE",
                       db=db, tail=tail)
 
@@ -73,7 +75,7 @@ def instrument(ctx, files):
     return os.path.join(ov, "overlay.json")
 
 
-FIELDS = {"t", "seq", "e", "k", "n", "mode", "due", "close", "retry", "par", "hdr", "p", "ent", "m", "now", "res", "next",
+FIELDS = {"t", "seq", "e", "k", "n", "mode", "due", "close", "retry", "par", "hdr", "panic", "pid", "p", "ent", "m", "now", "res", "next",
           "ndue", "pending", "broken", "hung", "g"}
 
 
@@ -141,10 +143,11 @@ def run_shards_resilient(ctx, binary, items, name="replay", rounds=6):
     return events
 
 
-def scen(mode, due, close, retry, par=1, maxtime=1, hdr=()):
+def scen(mode, due, close, retry, par=1, maxtime=1, hdr=(), panic=(), pid=0, downtime=0):
     # queue mode with shutdown: the process is started again on the same spool directory afterwards
     return {"mode": mode, "due": {p: d * SCALE for p, d in due.items()}, "close": close, "retry": list(retry),
             "par": par, "maxTime": maxtime * SCALE, "retryDelay": SCALE, "hdr": list(hdr),
+            "panic": list(panic), "pid": pid * SCALE, "downtime": downtime * SCALE,
             "restart": mode == "queue" and close}
 
 
@@ -167,6 +170,21 @@ def directed(thorough):
             sc = scen("queue", due, True, ["p1"], maxtime=3)
             sched = ["p1"] + ["clock"] * nclk + (["p1"] + run_all) * 10 + extra + (["closer"] + run_all) * 10
             out.append({"cfg": sc, "pol": "list", "sched": sched, "src": "restart-before-retry"})
+    # overdue-restart: the retry is overdue when the process comes back (downtime > retry delay) and
+    # post_init_delay > 0: nothing may be attempted before start-up + post_init_delay
+    for down in (2, 3):
+        for due in ({"p1": 0}, {"p1": 0, "p2": 0}):
+            sc = scen("queue", due, True, list(due), par=2, maxtime=2, pid=1, downtime=down)
+            sched = (list(due) + run_all) * 10 + (["closer"] + run_all) * 10
+            out.append({"cfg": sc, "pol": "list", "sched": sched, "src": "overdue-restart"})
+    # attempt-panic: the target panics inside an attempt; the production handler contains it
+    # (.meta_broken), the slot is released, later entries run, shutdown terminates
+    for mode in ("queue", "wheel"):
+        for close in (True, False):
+            for par in (1, 2):
+                sc = scen(mode, {"p1": 0, "p2": 0}, close, ["p2"], par=par, maxtime=2, panic=["p1"])
+                sched = (["p1", "p2"] + run_all) * 10 + ((["closer"] + run_all) * 10 if close else [])
+                out.append({"cfg": sc, "pol": "list", "sched": sched, "src": "attempt-panic"})
     for extra in ([], ["p2"] * 6):
         due = {"p1": 0, "p2": 0} if extra else {"p1": 0}
         sc = scen("queue", due, True, ["p1"], maxtime=3, hdr=["p1"])
@@ -198,6 +216,7 @@ def scenarios(thorough):
             scen(mode, {"p1": 0, "p2": 0}, True, []),
             scen(mode, {"p1": d1, "p2": 0}, False, ["p1"], maxtime=2),
             scen(mode, {"p1": 0, "p2": 0, "p3": d1}, True, ["p1", "p2"], par=2, maxtime=2),
+            scen(mode, {"p1": 0, "p2": 0}, True, ["p2"], maxtime=2, panic=["p1"], pid=1 if z else 0, downtime=1 if z else 0),
         ]
         if thorough:
             out += [
@@ -226,8 +245,12 @@ def run(ctx, replay):
         ctx.cov["model_depth"] = r["depth"]
         ctx.log("TLC exhaustive (safety): %d distinct states, %d transitions, depth %d, %.1fs" % (
             r["distinct"], r["generated"], r["depth"], r["wall"]))
+        rp = ctx.tlc_expect_ok("TimeWheel", None, name="mcpanic", workers=8, timeout=900,
+                               cfg_text=cfg(2, (0,), ((), ("p2",)) if thorough else ((),), ("TRUE", "FALSE"), (1,), 1,
+                                            panic=(("p1",),), tail="VIEW View\nINVARIANTS NoViolation TypeOK OnceEach NoBrokenMark\n"))
+        ctx.cov["states_with_panicking_attempt"] = rp["distinct"]
         # liveness under weak fairness (the tableau makes this expensive: smaller bounds)
-        lives = [(1, (0,), ((), ("p1",)), 1)]
+        lives = [(1, (0,), ((), ("p1",)), 1)]   # (and below: one producer whose attempt panics)
         if thorough:
             lives = [(1, (0, 1), ((), ("p1",)), 2), (2, (0,), ((),), 1)]
         nl = 0
